@@ -2998,6 +2998,9 @@ def api(repo, out):
 
 
 # =========================================================================== self-test
+_SN_TEST = ("        elif (slc.start is not None and slc.start < 0) or slc.stop is None or slc.stop < 0 or \\\n"
+            "                (slc.start is None and slc.step < 0):")
+
 selftest(
     'C04',
     # ---- order
@@ -3236,12 +3239,6 @@ selftest(
          "                        if scalar_ref:\n                            ref0 = ref0[src_indices]\n                            ref = np.full(ref0.shape, ref)\n                        elif scalar_ref0:\n                            ref = ref[src_indices]\n                            ref0 = np.full(ref.shape, ref0)\n                        else:\n                            ref0 = ref0[src_indices]\n                            ref = ref[src_indices]"),
     Twin('twin-si-index-shape', GROUP, "                            ref = np.full(ref0.shape, ref)", "                            ref = np.full(src_indices.shape, ref)"),
     Twin('twin-si-no-fill', GROUP, "                        if scalar_ref:  # ref is scalar so ref0 must be an array\n                            ref = np.full(ref0.shape, ref)\n                        elif scalar_ref0:  # ref0 is scalar so ref must be an array\n                            ref0 = np.full(ref.shape, ref0)\n", ""),
-    Twin('twin-sn-reordered', INDEXER, "        elif (slc.start is not None and slc.start < 0) or slc.stop is None or slc.stop < 0:",
-         "        elif slc.stop is None or 0 > slc.stop or not (slc.start is None or slc.start >= 0):"),
-    Twin('twin-sn-resolve-more', INDEXER, "        elif (slc.start is not None and slc.start < 0) or slc.stop is None or slc.stop < 0:",
-         "        elif slc.start is not None or slc.stop is None or slc.stop < 0:"),
-    Twin('fix-d5-open-start-backwards', INDEXER, "        elif (slc.start is not None and slc.start < 0) or slc.stop is None or slc.stop < 0:",
-         "        elif (slc.start is not None and slc.start < 0) or slc.stop is None or slc.stop < 0 or \\\n                (slc.start is None and slc.step < 0):"),
     Twin('twin-srcidx-early-returns', CONN, "        elif len(src_inds_list) == 1 and src_inds_list[0]._flat_src:\n            return src_inds_list[0].shaped_array()\n        else:\n            root = self.get_root(node)\n            root_meta = self.nodes[root]['attrs']\n            if root_meta.distributed:\n                root_shape = root_meta.global_shape\n            else:\n                root_shape = root_meta.shape\n            arr = np.arange(shape_to_len(root_shape)).reshape(root_shape)\n            for inds in src_inds_list:\n                arr = inds.indexed_val(arr)\n            return np.atleast_1d(arr).ravel()",
          "\n        if len(src_inds_list) == 1:\n            first = src_inds_list[0]\n            if first._flat_src:\n                return first.shaped_array()\n\n        root_meta = self.nodes[self.get_root(node)]['attrs']\n        root_shape = root_meta.global_shape if root_meta.distributed else root_meta.shape\n        idx_arr = np.arange(shape_to_len(root_shape)).reshape(root_shape)\n        for idxer in src_inds_list:\n            idx_arr = idxer.indexed_val(idx_arr)\n        return np.atleast_1d(idx_arr).ravel()"),
     Twin('twin-xf-rev-first-early-return', XFER, "        if mode == 'fwd':\n            # this works whether the vecs have multi columns or not due to broadcasting\n            in_vec.set_val(out_vec.asarray()[self._out_inds.flat], self._in_inds)\n\n        else:  # rev\n            out_vec.iadd(np.bincount(self._out_inds, in_vec._get_data()[self._in_inds],\n                                     minlength=out_vec._data.size))",
@@ -3262,10 +3259,15 @@ selftest(
     Mutant('si-flag-swapped', GROUP, "                        if not scalar_ref0:\n                            ref0 = ref0[src_indices]", "                        if not scalar_ref:\n                            ref0 = ref0[src_indices]", 'C04.scale-idx'),
     Mutant('si-list-of-source', GROUP, "                src_inds_list = meta_in['src_inds_list']", "                src_inds_list = src_node_meta.src_inds_list", 'C04.scale-idx'),
     Mutant('si-ref-of-input', GROUP, "                src_meta = allprocs_meta_out[src]\n                ref = src_meta['ref']", "                src_meta = allprocs_meta_out[src]\n                ref = allprocs_meta_out[abs_in]['ref']", 'C04.scale-idx'),
-    Mutant('seed1-slice-neg-start-explicit-stop', INDEXER, "        elif (slc.start is not None and slc.start < 0) or slc.stop is None or slc.stop < 0:", "        elif slc.stop is None or slc.stop < 0:", 'C04.slice-norm'),
-    Mutant('sn-neg-stop-unresolved', INDEXER, "        elif (slc.start is not None and slc.start < 0) or slc.stop is None or slc.stop < 0:", "        elif (slc.start is not None and slc.start < 0) or slc.stop is None:", 'C04.slice-norm'),
-    Mutant('sn-and-instead-of-or', INDEXER, "        elif (slc.start is not None and slc.start < 0) or slc.stop is None or slc.stop < 0:", "        elif (slc.start is not None and slc.start < 0) and (slc.stop is None or slc.stop < 0):", 'C04.slice-norm'),
-    Mutant('sn-start-le', INDEXER, "        elif (slc.start is not None and slc.start < 0) or slc.stop is None or slc.stop < 0:", "        elif (slc.start is not None and slc.start > 0) or slc.stop is None or slc.stop < 0:", 'C04.slice-norm'),
+    Twin('twin-sn-reordered', INDEXER, _SN_TEST, "        elif slc.stop is None or 0 > slc.stop or not (slc.start is None or slc.start >= 0) or \\\n                (slc.step < 0 and slc.start is None):"),
+    Twin('twin-sn-resolve-more', INDEXER, _SN_TEST, "        elif slc.start is not None or slc.stop is None or slc.stop < 0 or slc.step < 0:"),
+    Twin('twin-sn-open-start-any-step', INDEXER, _SN_TEST, "        elif slc.start is None or slc.start < 0 or slc.stop is None or slc.stop < 0:"),
+    Mutant('revert-d5-open-start-backwards', INDEXER, _SN_TEST, "        elif (slc.start is not None and slc.start < 0) or slc.stop is None or slc.stop < 0:", 'C04.slice-norm'),
+    Mutant('seed1-slice-neg-start-explicit-stop', INDEXER, _SN_TEST, "        elif slc.stop is None or slc.stop < 0 or \\\n                (slc.start is None and slc.step < 0):", 'C04.slice-norm'),
+    Mutant('sn-neg-stop-unresolved', INDEXER, _SN_TEST, "        elif (slc.start is not None and slc.start < 0) or slc.stop is None or \\\n                (slc.start is None and slc.step < 0):", 'C04.slice-norm'),
+    Mutant('sn-and-instead-of-or', INDEXER, _SN_TEST, "        elif ((slc.start is not None and slc.start < 0) and (slc.stop is None or slc.stop < 0)) or \\\n                (slc.start is None and slc.step < 0):", 'C04.slice-norm'),
+    Mutant('sn-start-gt', INDEXER, _SN_TEST, "        elif (slc.start is not None and slc.start > 0) or slc.stop is None or slc.stop < 0 or \\\n                (slc.start is None and slc.step < 0):", 'C04.slice-norm'),
+    Mutant('sn-open-start-forward-only', INDEXER, _SN_TEST, "        elif (slc.start is not None and slc.start < 0) or slc.stop is None or slc.stop < 0 or \\\n                (slc.start is None and slc.step > 0):", 'C04.slice-norm'),
     Mutant('sn-backwards-case-widened', INDEXER, "        if slc.stop is None and slc.step < 0:  # special backwards indexing case\n            self._shaped_inst", "        if slc.stop is None or slc.step < 0:  # special backwards indexing case\n            self._shaped_inst", 'C04.slice-norm'),
     Mutant('sn-as-array-special-dropped', INDEXER, "            if slc.stop is None and slc.step < 0:  # special case - neg step down to -1\n                return np.arange(self._src_shape[0], dtype=int)[slc]\n            else:\n                # use maxsize here since a shaped slice always has positive int start and stop\n                return np.arange(*slc.indices(sys.maxsize), dtype=int)",
            "            return np.arange(*slc.indices(sys.maxsize), dtype=int)", 'C04.slice-norm'),
